@@ -12,8 +12,9 @@ ENTRY = dict(
         corr_files=["Corr/C15Corr.v"],
         theorems=["c15_rxx_family", "c15_controlled", "c15_cx_family", "c15_cs_family", "c15_swap_family", "c15_move",
                   "c15_rot_list", "c15_nonlocal_list", "c15_u_from_thetavec", "c15_weyl", "c15_weyl_t00", "c15_weyl_tt0",
-                  "c15_weyl_symmetry", "c15_local_invariance", "c15_kak_doc_angles",
-                  "c15_rzx_is_kak", "c15_xxpyy_is_kak", "c15_xxmyy_is_kak", "c15_local_factors",
+                  "c15_weyl_symmetry", "c15_weyl_equiv_kappa", "c15_kak_doc_angles",
+                  "c15_rzx_is_kak", "c15_xxpyy_is_kak", "c15_xxmyy_is_kak",
+                  "c15_rzx_oracle", "c15_xxpyy_oracle", "c15_xxmyy_oracle", "c15_doc_kak_rows", "c15_gamma_table_excluded",
                   "c15_gamma_table_ge1", "c15_gamma_table_rot", "c15_gamma_table_consts", "c15_ge_1",
                   "c15_basis_invariants", "c15_setter_refuses", "c15_constructor", "c15_basis_invariants_R",
                   "c15_doc_table_sound", "c15_doc_approx", "c15_doc_table_rows", "c15_facts_registry", "c15_facts_source"],
@@ -30,21 +31,29 @@ ENTRY = dict(
                    "1+sqrt2 (cs family), 7 (swap, iswap, dcx), 4 (move); kappa of the KAK path as a closed form in the Weyl coordinates with "
                    "the corollaries (t,0,0) and (t,t,0), its invariance under the Weyl-group moves on (a,b,c) (transpositions, sign changes, shifts by "
                    "pi/2: the value does not depend on which representative of a local-equivalence class the decomposition returns) and the "
-                   "documented KAK angles of every family (c15_local_invariance — local factors and phase never enter — holds BY CONSTRUCTION "
-                   "of the model and is tied to the source only by the extracted call text and the conjugation streams); kappa >= 1; probabilities = |c|/sum|c|, "
+                   "documented KAK angles of every family; kappa constant on weyl_equiv classes of coordinate triples (c15_weyl_equiv_kappa: the "
+                   "coordinate-level form of 'locally equivalent gates have equal kappa'; there is NO gate-level theorem for arbitrary gates; that local "
+                   "factors and phase never enter holds by construction of the model — Remark c15_local_invariance_by_construction, not registered — "
+                   "and is tied to the source only by the extracted call text and the conjugation streams); for rzx / xx_plus_yy / xx_minus_yy: the gate "
+                   "MATRIX is a conjugate of N(a,b,c) by Kronecker products of UNITARY 2x2 matrices (c15_*_is_kak), and — with the oracle premise as an "
+                   "explicit hypothesis — the kappa of the model's KAK-path basis is the documented closed form (c15_*_oracle); kappa >= 1; probabilities = |c|/sum|c|, "
                    "sum 1, overhead = kappa^2 for every coefficient vector and after any sequence of reassignments; every row of the documented "
                    "table (parsed from docs/explanation/index.rst) is sound for the model. The model is compared with the implementation on "
                    ">1000 generated inputs per run (all 20 registered names, rzx/xx_plus_yy/xx_minus_yy, random local conjugations, Haar-random "
                    "unitaries, arbitrary dyadic coefficient vectors).",
         level_note=STD_NOTE + "c15_gamma_table_ge1 / _rot / _consts are statements over Q and are closed under the global context (NO axiom): "
-                   "kappa >= 1 for every registered basis at every rational point of the unit circle. "
+                   "kappa >= 1 at every rational point of the unit circle for the 16 registered names other than cs, csdg, csx, csxdg (premise "
+                   "fixed_angle name = false; c15_gamma_table_excluded lists the four: their point (cos pi/8, sin pi/8) is irrational and the Q statement "
+                   "would be about lists they never produce; over R they are covered by c15_cs_family and c15_ge_1). "
                    "Extension round: for rzx, xx_plus_yy, xx_minus_yy it is now PROVED (c15_rzx_is_kak, c15_xxpyy_is_kak, c15_xxmyy_is_kak) that the "
                    "gate's 4x4 matrix equals K1 * N(a,b,c) * K2 with explicit local (Kronecker-product) factors and (a,b,c) = (-theta/2,0,0), "
                    "(-theta/4,-theta/4,0), (-theta/4,theta/4,0), N built from the code's own _u_from_thetavec, and that kappa of the KAK path at these "
-                   "coordinates is the documented closed form; the former run-time-only hypothesis 'these are Weyl coordinates of the gate' is gone for "
-                   "these families. What remains assumed about Qiskit for them: TwoQubitWeylDecomposition returns SOME exact KAK decomposition (monitored, "
-                   "1e-9) and KAK coordinates of one gate differ only by Weyl-group moves (a theorem of Lie theory, not formalised), under which kappa "
-                   "is invariant (c15_weyl_symmetry, proved). The gate matrices themselves are hand-written from Qiskit's definitions and compared "
+                   "coordinates is the documented closed form. These are statements about the gate MATRIX. The statement about the MODEL'S OUTPUT "
+                   "(c15_rzx_oracle, c15_xxpyy_oracle, c15_xxmyy_oracle) carries the oracle premise as an explicit Coq hypothesis of kind oracle/mathematics: "
+                   "'the triple returned by TwoQubitWeylDecomposition is weyl_equiv to the proved one', which stands for (i) Qiskit returns an exact KAK "
+                   "decomposition of the gate (monitored, 1e-9) and (ii) KAK coordinates of one gate differ only by Weyl-group moves (Lie theory, not "
+                   "formalised). O-KAK is therefore still needed for these families, in this weaker, explicit form; the documented coordinates of the "
+                   "three KAK rows of the table are proved weyl_equiv to the proved ones (c15_doc_kak_rows). The gate matrices themselves are hand-written from Qiskit's definitions and compared "
                    "with Gate.to_matrix() on every run (stream gatemat). Axioms: the three axioms of Coq's standard real numbers (ClassicalDedekindReals.sig_forall_dec, sig_not_dec, "
                    "functional_extensionality_dep), nothing else. For gates that reach the KAK path (rzx, xx_plus_yy, xx_minus_yy, any other "
                    "two-qubit unitary) the closed forms are proved AS A FUNCTION OF THE WEYL COORDINATES; that Qiskit's "
